@@ -52,6 +52,22 @@ CHECKS = [
   'technique': 'who-may-write/who-may-call on the handle field + must-pass-through of the close decision + fold-kind extraction',
   'text': 'Decides that the handle is opened only lazily in read_block and dropped only in close, that every successful fetch passes the decision height >= highest height stored in that file and closes that same map entry on the true edge, and that the threshold table is a max-fold keyed by the record\'s own file over the untrimmed index. With ascending delivery this bounds open files by the files still holding a future height, for every layout.',
   'note': TB + 'OS descriptor release on drop trusted; relies on C02.asc.'},
+ {'id': 'C01', 'design_ref': 'DESIGN.md §3 C01',
+  'technique': 'wire-grammar extraction from MIR (ordered reads, bound loops, guards) compared with the protocol grammar; serializer builder-sequence extraction; format-template/provenance check of CSV columns',
+  'text': 'Decides reader = protocol grammar (header, legacy/BIP144 tx, input, output, outpoint, CompactSize arms), field binding, serializer = fields in reader order minus witness with an 80-byte header, sha256d over exactly that term, the four CSV templates with per-column provenance and formatting, one row per item in forward nested loops to the matching file, and totals bound to the CompactSize counts. These are facts about order, width and provenance in the MIR, valid for every chain shape and CompactSize boundary.',
+  'note': TB + 'SHA-256, Display impls, byteorder and BufWriter trusted. The u64->u32 cast of script/witness lengths is noted (lengths >= 2^32 cannot occur inside a u32-sized block).'},
+ {'id': 'C07', 'design_ref': 'DESIGN.md §3 C07',
+  'technique': 'MIR loop-structure/provenance analysis of the UTXO helpers, key-layout agreement via serializer terms, who-may-mutate check',
+  'text': 'Decides per-transaction interleaving of spend removal and output insertion in chain order (necessary for same-block spends; helper order within one tx deliberately unconstrained), one key layout for insert/remove/dump (txid||index u32le), the address-bearing filter and stored value, unconditional removal for every input, the dump columns and header, and single ownership of the map. These hold for every spend history because they are structural facts about loops, guards and operands.',
+  'note': TB + 'HashMap semantics trusted; relies on C01.ser (tx.hash = txid) and C02 (chain order).'},
+ {'id': 'C08', 'design_ref': 'DESIGN.md §3 C08',
+  'technique': 'sibling agreement check against C07\'s pipeline + provenance/width check of the aggregation',
+  'text': 'Decides that Balances::on_block applies the same helpers with the same argument provenance as UnspentCsvDump::on_block, and that on_complete groups all unspents by address with a u64 += value and writes exactly one (address, balance) row per group from the map that was filled. With C07 this gives balances = per-address aggregation of the unspent dump structurally, for every history.',
+  'note': TB + 'HashMap entry API trusted; u64 overflow of a balance is not possible below 21e14 units per address (not decided).'},
+ {'id': 'C13', 'design_ref': 'DESIGN.md §3 C13',
+  'technique': 'API-membership rules over resolved call sites (rayon pipeline shape, ambient inputs, FS/LevelDB effects), closure capture/effect analysis, hash-iteration site enumeration',
+  'text': 'Decides the structural causes of schedule- and rerun-independence: both rayon pipelines are Vec::into_par_iter -> indexed adaptors -> collect::<Vec>, their closures capture only Copy scalars and reach no shared mutable state, clock/env/RNG APIs appear only in logger/progress/default-dir code, the data directory is only read (File::open/read_dir/metadata/DB::open+iteration), all file mutations are File::create/rename in the dump callbacks, and hash containers are iterated only at the known order-insensitive sites.',
+  'note': TB + 'rayon\'s indexed-collect ordering guarantee and rusty-leveldb leaving key/value content unchanged are trusted, not decided.'},
 ]
 
 NOT_APPLICABLE = []
